@@ -321,17 +321,17 @@ def arrowText : Printer → Bool → Str
 def groupText (l : List Str) : Str := if l = [] then [] else " + ( ".toList ++ (joinStrs " + ".toList l ++ [')'])
 
 /-- **a printed reaction / equilibrium shows, side by side in stored order, each coefficient (omitted when 1) and the RENDERED name of its
-    species around that format's arrow.**  Let every species be written as a well-formed formula and listed in `substances` with the substance
-    `Substance.from_formula` makes of it (`Listed`).  Then the text printed by the str / LaTeX / Unicode / HTML printer is:
+    species around that format's arrow.**  Let every species be written as a formula that is either absent from `substances` (its key is then
+    shown as it is) or well-formed and listed there with the substance `Substance.from_formula` makes of it (`Known` / `Listed`; mixed tables allowed).  Then the text printed by the str / LaTeX / Unicode / HTML printer is:
     the reactant terms joined by ` + `, the inactive reactants as ` + ( … )`, a blank, that printer's arrow (`arrowText`), a blank, the product
     terms, the inactive products; where each term (`sideTexts`) is `str(coefficient)` and a blank — nothing when the coefficient equals 1, so
-    `1/2` IS printed — followed by the formula's text (str printer) resp. its LaTeX / Unicode / HTML PRESENTATION `present … f`; a term whose
+    `1/2` IS printed — followed by `shownName`: the raw key for an unlisted species, else the formula's text (str printer) resp. its LaTeX / Unicode / HTML PRESENTATION `present … f`; a term whose
     coefficient is 0 is not shown; the order is the stored order. -/
 theorem reaction_print_spec (p : Printer) (eq : Bool) (S : List (Str × Substance)) (reac prod ir ip : List (Formula × Rat))
-    (hS : ∀ fq ∈ reac ++ (prod ++ (ir ++ ip)), Listed S fq.1) :
+    (hS : ∀ fq ∈ reac ++ (prod ++ (ir ++ ip)), Known S fq.1) :
     printReaction p eq S (keyed reac) (keyed prod) (keyed ir) (keyed ip) =
-      joinStrs " + ".toList (sideTexts p reac) ++ (groupText (sideTexts p ir) ++ ([' '] ++ (arrowText p eq ++ ([' '] ++
-      (joinStrs " + ".toList (sideTexts p prod) ++ groupText (sideTexts p ip)))))) := by
+      joinStrs " + ".toList (sideTexts p S reac) ++ (groupText (sideTexts p S ir) ++ ([' '] ++ (arrowText p eq ++ ([' '] ++
+      (joinStrs " + ".toList (sideTexts p S prod) ++ groupText (sideTexts p S ip)))))) := by
   have h1 := printSide_formulas p S reac (fun x hx => hS x (by simp [hx]))
   have h2 := printSide_formulas p S prod (fun x hx => hS x (by simp [hx]))
   have h3 := printSide_formulas p S ir (fun x hx => hS x (by simp [hx]))
@@ -376,10 +376,13 @@ example : printReaction .unicode true [] [("A".toList, 1 / 2), ("B".toList, 3 / 
 example : printReaction .html false [] [("A".toList, 1 / 2)] [("C".toList, 1)] [("M".toList, 1), ("N".toList, 2)] []
     = "1/2 A + ( M + 2 N) &rarr; C".toList := by decide +kernel
 /-- the hypotheses of `species_spec` and `reaction_print_spec` are satisfiable: `f0` with the default phases, listed in a table -/
-example : ∃ S, Listed S f0 := by
+example : ∃ S, Listed S f0 ∧ Known S f0 := by
   obtain ⟨c, _, _, hs, _⟩ := species_spec f0 (by decide) (.seq (suffixesL.take 3)) (some 0) (by decide) (by decide)
-  exact ⟨[(f0.render, ⟨f0.render, present latexPres f0, present unicodePres f0, present htmlPres f0, c, none⟩)],
-    by decide, _, by simp [List.lookup], hs⟩
+  have hL : Listed [(f0.render, ⟨f0.render, present latexPres f0, present unicodePres f0, present htmlPres f0, c, none⟩)] f0 :=
+    ⟨by decide, _, by simp [List.lookup], hs⟩
+  exact ⟨_, hL, Or.inr hL⟩
+/-- … and a species absent from the table is `Known` too (shown as its raw key) -/
+example : Known [] f0 := Or.inl rfl
 example : (match speciesFromFormulaIdx (.seq (suffixesL.take 3)) 7 f0.render with | .ok s => s.phaseIdx | .error _ => none) = some 7 := by
   decide +kernel
 example : coefStr (1 / 2) = "1/2".toList ∧ coefStr 12 = "12".toList ∧ coefStr (-3 / 4) = "-3/4".toList := by decide +kernel
